@@ -532,7 +532,7 @@ static void artefact_case(World &W)
 		}
 		else
 		{
-			if (got == TMCG_OPENPGP_ARMOR_UNKNOWN) { W.res.cnt["probe.armor_refused"]++; W.S.hist.add(H_RESULT, 50, (uint64_t)adm, (uint64_t)art); return; }
+			if (got == TMCG_OPENPGP_ARMOR_UNKNOWN) { W.res.cnt["probe.armor_refused"]++; W.S.hist.add(H_RESULT, (art == 2 || K.algo == TMCG_OPENPGP_PKALGO_RSA || K.algo == TMCG_OPENPGP_PKALGO_EDDSA) ? 50 : 0, (uint64_t)adm, (uint64_t)art); return; }
 			// a changed radix-64 character of the body or of the checksum is a checksum mismatch: it must not be decoded
 			// (a character of the last quantum carries unused bits: replacing it can leave the octets unchanged)
 			if ((adm == 6 || adm == 7) && got == at && back != wire && !(back.size() > wire.size() && std::equal(wire.begin(), wire.end(), back.begin()))) { W.violate("C20", "armor_damage_undetected", awhat + " and the armor still decodes, to other octets, type " + std::to_string((int)at)); return; }
@@ -580,7 +580,10 @@ static void artefact_case(World &W)
 		if (!trailing_only && !damaged && !d) W.violate("C20", "own_message_not_decrypted", "message made by the library does not decrypt");
 		if (!trailing_only && damaged && d && dmg != 4 && dmg != 3 && dmg != 8) W.violate("C20", "tampered_message_decrypts", "decryption succeeded although " + what);
 	}
-	W.S.hist.add(H_RESULT, (uint64_t)outcome, (uint64_t)dmg, (uint64_t)art);
+	// DSA / ECDSA signatures inside the artefact have lengths that libgcrypt's own randomness decides: where a
+	// position-dependent damage lands, and with it how far the parsers get, is then not a function of the seed
+	bool reproducible = !damaged || art == 2 || K.algo == TMCG_OPENPGP_PKALGO_RSA || K.algo == TMCG_OPENPGP_PKALGO_EDDSA;
+	W.S.hist.add(H_RESULT, reproducible ? (uint64_t)outcome : 0, (uint64_t)dmg, (uint64_t)art);
 }
 
 // ---- documents that live in files (the signer hashes a file, the file is stored or travels, the verifier hashes a file)
@@ -940,7 +943,7 @@ static void prvkey_case(World &W)
 		gcry_mpi_release(r); gcry_mpi_release(s2);
 		delete prv;
 	}
-	W.S.hist.add(H_RESULT, (parsed ? 1 : 0) | (usable ? 2 : 0), (uint64_t)fault, 0);
+	W.S.hist.add(H_RESULT, (record_only ? 0 : ((must_fail ? 0 : (parsed ? 1 : 0)) | (usable ? 2 : 0))), (uint64_t)fault, 0);
 	if (record_only) W.res.cnt[usable ? "probe.cut_behind_secret_packet_usable" : "probe.cut_behind_secret_packet_refused"]++;
 	else if (!must_fail) { if (!usable) W.violate("C20", "stored_private_key_lost", std::string("a private key block exported under a passphrase ") + (parsed ? "imports but does not sign verifiably" : "does not import again")); }
 	else if (usable && fault != 2) W.violate("C20", "damaged_private_key_usable", "the private key was restored and signs although " + what);
